@@ -255,7 +255,7 @@ func Of(kind string, tier int) []aa.Rule {
 	case "rlimit":
 		for _, k := range []string{"nofile", "nice", "cpu", "as"} {
 			for _, op := range []string{"<=", "<"} {
-				for _, v := range []string{"1024", "-10", "infinity", "1K"} {
+				for _, v := range []string{"1024", "512", "9", "10", "-10", "infinity", "1K", "2M"} {
 					add(&aa.Rlimit{Key: k, Op: op, Value: v})
 				}
 			}
@@ -269,8 +269,8 @@ func Of(kind string, tier int) []aa.Rule {
 			for _, a := range [][]string{{}, {"r"}, {"w"}, {"r", "w"}, {"create"}, {"r", "getattr"}} {
 				for _, t := range []string{"", "posix", "sysv"} {
 					for _, l := range []string{"", "lab"} {
-						for _, n := range []string{"", "/a", "/b", "42"} {
-							if t == "posix" && n == "42" || t == "sysv" && strings.HasPrefix(n, "/") {
+						for _, n := range []string{"", "/a", "/b", "42", "7"} {
+							if t == "posix" && (n == "42" || n == "7") || t == "sysv" && strings.HasPrefix(n, "/") {
 								continue
 							}
 							add(&aa.Mqueue{Qualifier: q, Access: append([]string{}, a...), Type: t, Label: l, Name: n})
